@@ -77,6 +77,8 @@ def gen_cases(rng, tier):
             c['to_end'] = rng.chance(0.5)
             c['batch_size'] = rng.pick([1, 7, 1000])
             c['mutate_after'] = rng.chance(0.6)
+            # a following delete_resource of the original (or of the copy): the survivor keeps all its rows
+            c['then_delete'] = rng.pick([None, None, 'source', 'copy'])
         elif k == 'delete':
             c['selected'] = [x for x in names if rng.chance(0.4)]
         else:
@@ -105,6 +107,11 @@ def _bump(row):
     row['__touched'] = True
 
 
+def deleted_after_dup(case):
+    src = case['source'] or case['pkg'][0]['name']
+    return src if case['then_delete'] == 'source' else (case['target'] or src + '_copy')
+
+
 def steps_of(case):
     k = case['kind']
     if k == 'concat':
@@ -114,6 +121,8 @@ def steps_of(case):
         kw = {}
         st = [DF.duplicate(source=case['source'], target_name=case['target'], batch_size=case['batch_size'],
                            duplicate_to_end=case['to_end'])]
+        if case.get('then_delete'):
+            st.append(DF.delete_resource([deleted_after_dup(case)]))
         return st
     if k == 'delete':
         return [DF.delete_resource(case['selected'])]
@@ -207,6 +216,8 @@ def expected(case):
             if r['name'] == src:
                 c = dict(r, name=tn, path=tn + '.csv')
                 (tail if case['to_end'] else out).append(c)
+        if case.get('then_delete'):
+            return ('ok', [r for r in out + tail if r['name'] != deleted_after_dup(case)])
         return ('ok', out + tail)
     if k == 'append':
         new = [{'name': r['name'], 'fields': [[f['name'], f['type']] for f in r['fields']], 'pk': r['pk'] or [],
@@ -332,6 +343,8 @@ def coq_term(case, out):
         src = case['source'] or names[0]
         tn = case['target'] or src + '_copy'
         model = 'duplicate 8 %s %s %s %s %s' % (cstr(src), cstr(tn), cstr(tn + '.csv'), cbool(case['to_end']), coq_pkg(p))
+        if case.get('then_delete'):
+            model = 'delete_resource (fun n => str_in n %s) (%s)' % (cstrs([deleted_after_dup(case)]), model)
         return 'false' if 'error' in out else 'pkg_eqb (%s) %s' % (model, coq_pkg(out['pkg']))
     sel = 'fun n => str_in n %s' % cstrs(case['selected']) if case['selected'] is not None else 'fun _ => true'
     model = 'concatenate %s %s %s (%s) %s' % (
